@@ -72,7 +72,7 @@ static int rely(const uint64_t* o, const uint64_t* n){
   if (!wf(n)) return 0;
   for (int i=0;i<NN;i++){
     if (P(o[i])!=(uint64_t)i){ if (P(n[i])==(uint64_t)i) return 0; if (R(n[i])!=R(o[i])) return 0; }
-    else if (P(n[i])==(uint64_t)i && R(n[i])<R(o[i])) return 0; }
+    else if (R(n[i])<R(o[i])) return 0; }      /* the rank field of a root never decreases, not even by the CAS that links it */
   uint64_t ro[NN], rn[NN]; for (int i=0;i<NN;i++){ ro[i]=rootof(o,i); rn[i]=rootof(n,i); }
   for (int i=0;i<NN;i++) for (int j=0;j<NN;j++) if (ro[i]==ro[j] && rn[i]!=rn[j]) return 0;
   return 1; }
@@ -282,7 +282,7 @@ void own_step(void){
     for (int i=0;i<NN;i++){ rp_[i]=rootof(ghost_prev,i); rc_[i]=rootof(cur_,i); }
     for (int i=0;i<NN;i++){
       if (P(ghost_prev[i])!=(uint64_t)i){ if (P(cur_[i])==(uint64_t)i) g=0; if (R(cur_[i])!=R(ghost_prev[i])) g=0; }
-      else if (P(cur_[i])==(uint64_t)i && R(cur_[i])<R(ghost_prev[i])) g=0; }
+      else if (R(cur_[i])<R(ghost_prev[i])) g=0; }
     for (int i=0;i<NN;i++) for (int j=0;j<NN;j++) {
       int before = rp_[i]==rp_[j], after = rc_[i]==rc_[j];
       if (before && !after) g=0;
@@ -293,7 +293,7 @@ void own_step(void){
       if (after != before) mg=0;
 #endif
     }
-    __CPROVER_assert(g, "own CAS satisfies the guarantee (no class split, non-roots stay non-roots with frozen rank, root ranks monotone)");
+    __CPROVER_assert(g, "own CAS satisfies the guarantee (no class split, non-roots stay non-roots with frozen rank, no rank ever decreases)");
 #if OP==0
     __CPROVER_assert(mg, "own CAS merges only the classes of x and y");
 #else
@@ -344,7 +344,9 @@ void own_step(void);
 /* every atomic block access of the kernels is preceded by VERIF_YIELD_AT(k), k = static site number;
    -DSITE=k restricts the interference to that site (all its dynamic occurrences) */
 extern int started; extern int ycount;   /* dynamic index of the atomic block access (all sites), as counted by the native replay hook */
-#ifdef SITE
+#if defined(SITE_LO)
+#define VERIF_YIELD_AT(k) { if (started) ycount++; if ((k) >= SITE_LO && (k) <= SITE_HI) env_step(); }
+#elif defined(SITE)
 #define VERIF_YIELD_AT(k) { if (started) ycount++; if ((k) == SITE) env_step(); }
 #else
 #define VERIF_YIELD_AT(k) { if (started) ycount++; env_step(); }
@@ -392,7 +394,9 @@ void own_step(void);
 /* every atomic block access of the kernels is preceded by VERIF_YIELD_AT(k), k = static site number;
    -DSITE=k restricts the interference to that site (all its dynamic occurrences) */
 extern int started; extern int ycount;   /* dynamic index of the atomic block access (all sites), as counted by the native replay hook */
-#ifdef SITE
+#if defined(SITE_LO)
+#define VERIF_YIELD_AT(k) { if (started) ycount++; if ((k) >= SITE_LO && (k) <= SITE_HI) env_step(); }
+#elif defined(SITE)
 #define VERIF_YIELD_AT(k) { if (started) ycount++; if ((k) == SITE) env_step(); }
 #else
 #define VERIF_YIELD_AT(k) { if (started) ycount++; env_step(); }
@@ -467,7 +471,7 @@ int main(){
     int g = 1;
     for (int i=0;i<NN;i++){
       if (P(A0[i])!=(uint64_t)i){ if (P(A1[i])==(uint64_t)i) g=0; if (R(A1[i])!=R(A0[i])) g=0; }
-      else if (P(A1[i])==(uint64_t)i && R(A1[i])<R(A0[i])) g=0; }
+      else if (R(A1[i])<R(A0[i])) g=0; }
     for (int i=0;i<NN;i++) for (int j=0;j<NN;j++) if (RT0[i]==RT0[j] && RT1[i]!=RT1[j]) g=0;
     __CPROVER_assert(g, "no class split, non-roots stay non-roots with frozen rank, root ranks monotone");
     for (int i=0;i<NN;i++) for (int j=0;j<NN;j++)
@@ -574,7 +578,7 @@ extern "C" void verif_hook_cas_done(const void* a, bool ok){
   printf("own CAS after access #%d\n", ycount); show(" blocks", cur);
   CHECK(acyclic(cur), "own CAS: parent links form no cycle other than a root's self loop");
   if (acyclic(cur) && acyclic(ghost_prev)) {
-    CHECK(rely(ghost_prev,cur), "own CAS satisfies the guarantee (no class split, non-roots stay non-roots with frozen rank, root ranks monotone)");
+    CHECK(rely(ghost_prev,cur), "own CAS satisfies the guarantee (no class split, non-roots stay non-roots with frozen rank, no rank ever decreases)");
     for (int i=0;i<NN;i++) for (int j=0;j<NN;j++) {
       int before = rootof(ghost_prev,i)==rootof(ghost_prev,j), after = rootof(cur,i)==rootof(cur,j);
       if (OPK==0) { uint64_t rx = rootof(ghost_prev,gx), ry = rootof(ghost_prev,gy), ri = rootof(ghost_prev,i), rj = rootof(ghost_prev,j);
@@ -857,17 +861,26 @@ def run(tier, seed, only=None):
         pre = os.path.join(work, "uf_pre.c")
 
         def pre_ob(n, e, opi, eop, excl, site, cap, opt):
-            name = "preempt%s:%s|%s:N=%d:E=%d:%s" % ("-excl" if excl else "", OPS[opi], OPS[eop], n, e, "site=%d" % site if site else "allsites")
-            defs = ["NN=%d" % n, "OP=%d" % opi, "EOP=%d" % eop, "ENV=%d" % e, "MODEL_LINK_RANK=%d" % K29["model_link_rank"]] + (["EXCL_KNOWN"] if excl else []) + (["SITE=%d" % site] if site else [])
+            """site: None = every pause point, int = one static pause site, (lo, hi) = the static pause sites lo..hi"""
+            if site is None:
+                sname, sdefs = "allsites", []
+            elif isinstance(site, tuple):
+                sname, sdefs = "sites=%d-%d" % site, ["SITE_LO=%d" % site[0], "SITE_HI=%d" % site[1]]
+            else:
+                sname, sdefs = "site=%d" % site, ["SITE=%d" % site]
+            name = "preempt%s:%s|%s:N=%d:E=%d:%s" % ("-excl" if excl else "", OPS[opi], OPS[eop], n, e, sname)
+            defs = ["NN=%d" % n, "OP=%d" % opi, "EOP=%d" % eop, "ENV=%d" % e, "MODEL_LINK_RANK=%d" % K29["model_link_rank"]] + (["EXCL_KNOWN"] if excl else []) + sdefs
             return K.Obligation(name, [pre], defines=defs, unwind=n + 2, unwindset=_unwindset(opi, n, e), timeout=cap, includes=[work], mem_gb=10,
                                 meta={"part": "b1", "N": n, "E": e, "op": OPS[opi], "env_op": OPS[eop], "excl_known": excl,
-                                      "site": site or "all", "_op": opi, "_eop": eop, "_opt": opt})
+                                      "site": sname, "_site": site, "_op": opi, "_eop": eop, "_opt": opt})
         # N=2: all pause points in one query (the '-excl' twin is added in a second round only where the plain obligation is violated)
         obls.append(pre_ob(2, 1, 0, 0, False, None, 300, False))
         us = K29["sites"]["ds_union"]
         if not thorough:
-            # N=3 at the pause site directly before the link CAS inside the first updateRoot: lost-update / retry errors
-            obls.append(pre_ob(3, 1, 0, 0, False, us[-3], 300, False))
+            # N=3: one complete union of another thread (including its rank bump) at EVERY pause point between the operation's
+            # rank reads and its link CAS: after the first rank read, before updateRoot's load, before the CAS
+            # (stale-rank decisions, weakened updateRoot validation, lost update / missing retry)
+            obls.append(pre_ob(3, 1, 0, 0, False, (us[-5], us[-3]), 300, False))
         if thorough:
             for opi in (0, 1, 2):
                 for eop in (0, 2):
@@ -901,7 +914,7 @@ def run(tier, seed, only=None):
         twins = []
         for o in obls:
             if o.meta["part"] == "b1" and not o.meta["excl_known"] and o.verdict == "violated":
-                t = pre_ob(o.meta["N"], o.meta["E"], o.meta["_op"], o.meta["_eop"], True, None if o.meta["site"] == "all" else o.meta["site"],
+                t = pre_ob(o.meta["N"], o.meta["E"], o.meta["_op"], o.meta["_eop"], True, o.meta["_site"],
                            o.timeout, o.meta["_opt"])
                 if t.name not in have:
                     twins.append(t)
